@@ -10,7 +10,8 @@ EXPLANATION = (
     "pass flush_block, write_frame and the 28-byte EOF marker on every success path (must-pass-through on the CFG "
     "with wrapper summaries); (R6) the reader's integrity guards: CRC32 equality, ISIZE bound, header validity and "
     "minimum frame size dominate every success exit; (R7) reader and writer agree on the header constants. "
-    "It does not run the code and does not decide payload equality.")
+    "It does not run the code and does not decide payload equality."
+    " (R8) last writer: the direct-read fast path parse_block_into_buf leaves the block cursor at the end of the block — after any other write of Data.pos every success path passes set_position(isize).")
 ASSUMPTIONS = [
     "zlib-rs deflate/inflate are inverse and a stored (level 0) block costs at most 10 bytes for <= 65535 input bytes (the code comment's own statement)",
     "std::io::Write::write_all / Read::read_exact semantics",
@@ -186,6 +187,42 @@ def run(ctx):
         else:
             ctx.violation("C01.R4", "C01.R4/position/" + ffb.key,
                           "flush_block no longer advances `position` by the size returned from write_frame", ffb.loc())
+
+    # ---------------------------------------------------------------- R8 direct-read fast path leaves the block consumed
+    ctx.rule("C01.R8", "A3 last writer: parse_block_into_buf (inflate straight into the caller's buffer) leaves the block cursor at the end "
+                       "of the block — after any other write of Data.pos every success path passes set_position(isize)")
+    fpb = ctx.anchor("C01.R8", "noodles_bgzf::io::reader::frame::parse_block_into_buf")
+    if fpb is not None:
+        DATA = "noodles_bgzf::io::block::data::Data"
+        writers = set(R.field_writers(fb, DATA, "pos"))
+        may_write = fb.reaches(lambda k: k in writers)
+        is_pf = R.mk_pred(r"reader::frame::parse_frame$")
+        consuming = {b for b, c in fpb.calls() if (c.get("f") or "").endswith("block::data::Data::set_position")
+                     and len(c["args"]) > 1 and R.derives_from_call(fpb, c["args"][1], is_pf)}
+        others = [(b, c) for b, c in fpb.calls() if (c.get("f") or "") in may_write and b not in consuming]
+        if not writers or not consuming:
+            ctx.violation("C01.R8", "C01.R8/ANCHOR-MISSING/%s/set_position" % fpb.key,
+                          "parse_block_into_buf no longer marks the block consumed with set_position(isize) (writers of Data.pos found: %d)" % len(writers), fpb.loc())
+        else:
+            ex = C.success_exit_blocks(fpb)
+            bad = None
+            for b, c in others:
+                if c["t"] is None or c["t"] in consuming:
+                    continue
+                reach = C.reachable(fpb, c["t"], removed=consuming)
+                hit = [e for e in ex if e in reach]
+                if hit:
+                    bad = (b, c, hit[0])
+                    break
+            if bad is None:
+                ctx.ok("C01.R8", fpb.key + " :: cursor at end of block on every success path",
+                       "%d other cursor write(s), each followed by set_position(isize) before Ok" % len(others), fpb.loc())
+            else:
+                b, c, e = bad
+                ctx.violation("C01.R8", "C01.R8/cursor-reset-after-consume/" + fpb.key,
+                              "parse_block_into_buf returns Ok on a path where %s (which rewrites the block cursor) is the last cursor write: the block, "
+                              "whose bytes went to the caller's buffer and never into the block buffer, claims unread data and the next read serves "
+                              "stale bytes" % c["f"].split("::")[-1], fpb.loc(b))
 
     # ---------------------------------------------------------------- R5 finalisation (A3)
     ctx.rule("C01.R5", "A3 must-pass-through: finish/try_finish/Drop/flush/flush_block/write_frame")
